@@ -1,13 +1,330 @@
-"""C07: dynamic type identity and interface satisfaction coincide with Go's rules."""
-import os, sys
+"""C07: dynamic type identity and interface satisfaction coincide with Go's rules.
+
+leg (a)  E2, ssa/abi:  types.Identical(T,U) <=> Builder.TypeName(T)==TypeName(U) on generated go/types pairs
+leg (b)  E1: generated multi-package programs print the matrices of x.(T) ok-bits, type-switch arms,
+         interface ==, map[any] hits, reflect.Type ==, and the (concrete type, interface) table with the ids
+         returned through the interface and by direct calls; llgo output vs go output, line by line.
+"""
+import os, sys, shutil, time
 sys.path.insert(0, os.path.join(os.path.dirname(os.path.abspath(__file__)), "..", "rig"))
+sys.path.insert(0, os.path.join(os.path.dirname(os.path.abspath(__file__)), "..", "gen"))
 import core, inpkg
+import c07_progs
 
 chk = core.Check("C07")
+chk.assumptions = [
+    "go/types' Identical is the statement of Go's type identity (leg a); the reference toolchain go1.24.0 is the statement of run-time behaviour (leg b)",
+    "all executions at -O0, amd64; one fresh llgo cache per run (a descriptor name that depended on which packages came from the cache would not be seen)",
+    "type grammar depth <= 4 (leg a), <= 3 (leg b); values are zero values, so == / map results depend on the dynamic type only",
+]
+THOROUGH = chk.tier == "thorough"
+WORKERS = 8
+
+# constructs left to the fixed probes while the corresponding finding is open ("probe + avoid")
+AVOID = [w for w, fid in (("tags", "C07-structtag"), ("targs", "C07-typearg-rendering"), ("emb", "C07-embedded-name"),
+                          ("mixed", "C07-iface-mixed-pkgs"), ("genclosure", "C07-generic-local-closure"),
+                          ("unexpdup", "C07-unexported-method-symbol")) if chk.is_open(fid)]
+chk.cov["avoided_constructs"] = AVOID
+
+# ---------------------------------------------------------------- leg (a)
 inj = {"ssa/abi/zz_verif_c07_test.go": os.path.join(core.V, "inpkg", "c07_identity_test.go")}
-avoid = [w for w, fid in (("tags", "C07-structtag"), ("targs", "C07-typearg-rendering"), ("emb", "C07-embedded-name"), ("mixed", "C07-iface-mixed-pkgs")) if chk.is_open(fid)]
-env = {"VERIF_C07_AVOID": ",".join(avoid)}
-for rx, label in (("^TestVerifC07Probes$", "probes"), ("^TestVerifC07Identity$", "identity")):
+env = {"VERIF_C07_AVOID": ",".join(AVOID)}
+for rx, label in (("^TestVerifC07Probes$", "a_probes"), ("^TestVerifC07Identity$", "a_identity")):
     rc, out, rep, races, _ = inpkg.run_inpkg(chk, inj, "./ssa/abi", rx, extra_env=env)
     inpkg.absorb(chk, rep, out, rc, label)
-chk.finish(floor_eval=1000, floor_distinct=50)
+
+# ---------------------------------------------------------------- leg (b)
+llgo = core.build_llgo(chk.work)
+REPLAY_SH = "#!/bin/bash\nexec python3 %s \"$(dirname \"$0\")/src\"\n" % os.path.join(core.V, "rig", "replay_diff.py")
+stats = {"programs": 0, "invalid_generated": 0, "lines_compared": 0, "compile_failures": 0, "b_evaluations": 0,
+         "iface_pairs": 0, "iface_pairs_satisfied": 0, "method_calls_through_iface": 0, "expected_identical_pairs": 0,
+         "model_disagreements": 0}
+
+
+def build_run(name, files=None, srcdir=None):
+    """Builds with go and llgo, runs both. Returns dict(kind=invalid|compile-failure|ran, ...)."""
+    d = chk.work.sub("b", name)
+    if srcdir:
+        shutil.rmtree(d)
+        shutil.copytree(srcdir, d)
+    else:
+        core.write_module(d, files)
+    rc2, so2, se2 = core.go_build(chk.work, d, os.path.join(d, "p_go.bin"))
+    if rc2 != 0:
+        return {"kind": "invalid", "msg": (so2 + se2)[-2000:], "dir": d}
+    rc, so, se = core.llgo_build(chk.work, llgo, d, os.path.join(d, "p_llgo.bin"))
+    if rc != 0:
+        return {"kind": "compile-failure", "msg": (so + se)[-3000:], "dir": d}
+    a = core.run_prog([os.path.join(d, "p_go.bin")], timeout=120)
+    b = core.run_prog([os.path.join(d, "p_llgo.bin")], timeout=300, interposer=True)
+    return {"kind": "ran", "go": a, "llgo": b, "dir": d}
+
+
+def src_files(d):
+    out = {}
+    for root, _, fns in os.walk(d):
+        for fn in sorted(fns):
+            if fn.endswith(".go") or fn == "go.mod":
+                p = os.path.join(root, fn)
+                out["src/" + os.path.relpath(p, d)] = open(p).read()
+    return out
+
+
+def text(r):
+    return r.out + r.err
+
+
+def report(name, res, summary, extra=None):
+    files = src_files(res["dir"])
+    files["replay.sh"] = REPLAY_SH
+    if res["kind"] == "ran":
+        files["go.out"] = text(res["go"])
+        files["llgo.out"] = text(res["llgo"])
+    else:
+        files["build.log"] = res.get("msg", "")
+    if extra:
+        files.update(extra)
+    chk.violation(name, files, summary)
+    try:
+        os.chmod(os.path.join(core.V, "replays", "%s-%s-s%d-%s" % (chk.pid, chk.tier, chk.seed, name), "replay.sh"), 0o755)
+    except OSError:
+        pass
+
+
+def ended(res):
+    """None if both runs exited normally and printed END; else who did not"""
+    a, b = res["go"], res["llgo"]
+    if a.kind != "exit" or a.rc != 0 or "END" not in text(a):
+        return "reference"
+    if b.kind == "timeout":
+        return "timeout"
+    if b.kind != "exit" or b.rc != 0 or "END" not in text(b):
+        return "llgo"
+    return None
+
+
+# ---- (b0) fixed probe program, first
+def probe():
+    res = build_run("probe", srcdir=os.path.join(core.V, "progs", "c07_probe"))
+    stats["programs"] += 1
+    if res["kind"] != "ran":
+        if res["kind"] == "invalid":
+            core.broken("C07: the reference toolchain rejects progs/c07_probe:\n" + res["msg"])
+        report("probe-compile", res, "llgo cannot build the fixed probe program progs/c07_probe:\n" + res["msg"][-1500:])
+        return
+    e = ended(res)
+    if e == "reference":
+        core.broken("C07: probe program misbehaves under go: %s" % text(res["go"])[-500:])
+    if e == "timeout":
+        chk.inconclusive += 1
+        return
+    if e == "llgo":
+        report("probe-crash", res, "fixed probe program: llgo binary ended with %s rc=%s\n%s" % (res["llgo"].kind, res["llgo"].rc, text(res["llgo"])[-800:]))
+        return
+    ga = [l for l in text(res["go"]).split("\n") if l.startswith("P ")]
+    la = [l for l in text(res["llgo"]).split("\n") if l.startswith("P ")]
+    if len(ga) != len(la):
+        report("probe-lines", res, "fixed probe program: %d lines under go, %d under llgo" % (len(ga), len(la)))
+        return
+    open_classes = {}
+    for f in chk.open_findings():
+        for c in f.get("classes", []):
+            open_classes[c] = f
+    for x, y in zip(ga, la):
+        stats["lines_compared"] += 1
+        stats["b_evaluations"] += 1
+        cls = x.split()[1]
+        chk.sig("probe|" + x.split()[2])
+        if x == y:
+            continue
+        f = open_classes.get(cls)
+        if f is not None and x.split()[:3] == y.split()[:3]:
+            chk.known(f["id"], f["what"])
+        else:
+            report("probe-" + core.h(x), res, "fixed probe line differs (class %s):\n  go:   %s\n  llgo: %s" % (cls, x, y))
+
+
+probe()
+
+# ---- (b1..b3) generated programs
+N_ID, N_IF, N_RF = (100, 40, 10) if THOROUGH else (4, 2, 1)
+# reflect programs build slowest: start them first
+jobs = [("rf", i) for i in range(N_RF)] + [("id", i) for i in range(N_ID)] + [("if", i) for i in range(N_IF)]
+
+
+def gen(kind, i):
+    if kind == "id":
+        return c07_progs.gen_identity(chk.seed, i, AVOID)
+    if kind == "rf":
+        return c07_progs.gen_identity(chk.seed, i, AVOID, reflect=True, families=4)
+    return c07_progs.gen_iface(chk.seed, i, AVOID)
+
+
+def work(job):
+    kind, i = job
+    t0 = time.time()
+    p = gen(kind, i)
+    res = build_run("%s%03d" % (kind, i), files=p["files"])
+    res["wall"] = round(time.time() - t0, 1)  # evidence only
+    for fn in ("p_go.bin", "p_llgo.bin"):  # binaries are large; keep sources and outputs only
+        try:
+            os.remove(os.path.join(res["dir"], fn))
+        except OSError:
+            pass
+    return job, p, res
+
+
+def cells(lines, prefix):
+    out = {}
+    for l in lines:
+        if l.startswith(prefix + " "):
+            f = l.split()
+            out[int(f[1])] = f[2:] if len(f) > 3 else (f[2] if len(f) > 2 else "")
+    return out
+
+
+def diff_identity(name, p, res, reflect):
+    g, l = text(res["go"]).split("\n"), text(res["llgo"]).split("\n")
+    lab = p["labels"]
+    msgs = []
+    legs = ((("R", "reflect.TypeOf(a)==reflect.TypeOf(b)"), ("L", "reflect.TypeOf(a).Elem()==reflect.TypeOf(b)")) if reflect else
+            (("A", "x.(T) ok"), ("S", "type switch arm in (pa,pb,pc)"), ("E", "a==b as interfaces (2 = panic)"), ("M", "map[any] first equal key")))
+    for prefix, what in legs:
+        cg, cl = cells(g, prefix), cells(l, prefix)
+        for i in sorted(cg):
+            x, y = cg[i], cl.get(i)
+            if x == y:
+                continue
+            if isinstance(x, str) and isinstance(y, str) and len(x) == len(y) and len(x) == p["nvals"]:
+                for j in range(len(x)):
+                    if x[j] != y[j] and len(msgs) < 6:
+                        msgs.append("%s: go=%s llgo=%s\n    value/left : #%d %s\n    type/right : #%d %s" % (what, x[j], y[j], i, lab[i], j, lab[j]))
+            elif len(msgs) < 6:
+                msgs.append("%s: go=%s llgo=%s\n    value: #%d %s" % (what, x, y, i, lab[i]))
+    if not msgs:
+        fd = core.first_diff(text(res["go"]), text(res["llgo"]))
+        msgs.append("outputs differ at line %d:\n  go:   %s\n  llgo: %s" % (fd[0] + 1, fd[1][:300], fd[2][:300]))
+    report(name, res, "generated program %s: run-time type identity differs from Go\n" % name + "\n".join(msgs),
+           {"labels.txt": "\n".join("%d %s" % (i, s) for i, s in enumerate(lab)) + "\n"})
+
+
+def check_iface_consistency(name, p, res, which):
+    """ids through the interface == ids of direct calls, inside ONE output (in-program law, also under go)."""
+    lines = text(res[which]).split("\n")
+    direct = {}
+    for l in lines:
+        if l.startswith("D "):
+            f = l.split()
+            direct[(f[1], f[2], f[3])] = f[4]
+    cur = None
+    curname = ""
+    bad = []
+    for l in lines:
+        if l.startswith("C "):
+            f = l.split()
+            cur = (f[1].replace("[string]", ""), f[2])
+            curname = l[2:]
+        elif l.startswith(" ") and " + " in l and cur:
+            f = l.split()
+            iface = f[0]
+            if which == "go":
+                stats["iface_pairs_satisfied"] += 1
+            for tok in f[2:]:
+                if "=" in tok:
+                    mn, mid = tok.split("=")
+                    if which == "go":
+                        stats["method_calls_through_iface"] += 1
+                    d = direct.get((cur[0], cur[1], mn))
+                    if d is not None and d != mid:
+                        bad.append("%s via %s: method %s returns id %s through the interface, %s by direct call" % (curname, iface, mn, mid, d))
+            if which == "go":
+                key = "%s|%s" % (curname, iface)
+                if key in p["expect"] and not p["expect"][key]:
+                    stats["model_disagreements"] += 1
+        elif l.startswith(" ") and l.rstrip().endswith(" -") and cur and which == "go":
+            key = "%s|%s" % (curname, l.split()[0])
+            if key in p["expect"] and p["expect"][key]:
+                stats["model_disagreements"] += 1
+    return bad
+
+
+walls = {}
+results = core.pmap(work, jobs, workers=WORKERS)
+for (kind, i), p, res in results:
+    name = "%s%03d" % (kind, i)
+    stats["programs"] += 1
+    walls.setdefault(kind, []).append(res.get("wall", 0))
+    if res["kind"] == "invalid":
+        stats["invalid_generated"] += 1
+        print("C07: generator produced a program go rejects (%s): %s" % (name, res["msg"][-400:].replace("\n", " | ")), flush=True)
+        continue
+    if res["kind"] == "compile-failure":
+        stats["compile_failures"] += 1
+        report(name + "-compile", res, "llgo fails to build a program that go accepts (%s):\n%s" % (name, res["msg"][-1500:]))
+        continue
+    e = ended(res)
+    if e == "reference":
+        stats["invalid_generated"] += 1
+        print("C07: generated program misbehaves under go (%s): %s" % (name, text(res["go"])[-300:]), flush=True)
+        continue
+    if e == "timeout":
+        chk.inconclusive += 1
+        continue
+    if e == "llgo":
+        report(name + "-crash", res, "generated program %s: llgo binary ended with %s rc=%s (go: normal exit)\n%s" % (
+            name, res["llgo"].kind, res["llgo"].rc, text(res["llgo"])[-800:]))
+        continue
+    tg, tl = text(res["go"]), text(res["llgo"])
+    stats["lines_compared"] += tg.count("\n")
+    for s in p["sigs"]:
+        chk.sig(kind + "|" + s)
+    if kind in ("id", "rf"):
+        n = p["nvals"]
+        stats["b_evaluations"] += (2 * n * n + 4 * n) if kind == "id" else (n * n + sum(1 for l in tg.split("\n") if l.startswith("L ")) * n)
+        stats["expected_identical_pairs"] += p["expected_identical_pairs"]
+        if tg != tl:
+            diff_identity(name, p, res, kind == "rf")
+        if len(chk.cov["samples"]) < 2 and kind == "id":
+            a_line = [l for l in tg.split("\n") if l.startswith("A 0 ")]
+            chk.sample({"program": name, "values": n, "value_0": p["labels"][0], "assert_row_0_go": a_line[0] if a_line else "",
+                        "same_under_llgo": tg == tl})
+    else:
+        stats["iface_pairs"] += p["nvals"] * p["nifaces"]
+        stats["b_evaluations"] += p["nvals"] * p["nifaces"] + sum(1 for l in tg.split("\n") if l.startswith("D "))
+        bad = []
+        for which in ("go", "llgo"):
+            b = check_iface_consistency(name, p, res, which)
+            if b and which == "go":
+                core.broken("C07: in-program law (iface id == direct id) fails under the reference toolchain: %s" % b[:2])
+            bad += b
+        if tg != tl:
+            fd = core.first_diff(tg, tl)
+            ctx = ""
+            ls = tg.split("\n")
+            for k in range(min(fd[0], len(ls) - 1), -1, -1):
+                if ls[k].startswith("C "):
+                    ctx = ls[k]
+                    break
+            report(name, res, "generated program %s: interface satisfaction / dispatch differs from Go at line %d (value %s)\n  go:   %s\n  llgo: %s\n%s" % (
+                name, fd[0] + 1, ctx, fd[1][:300], fd[2][:300], "\n".join(bad[:4])))
+        elif bad:
+            report(name, res, "generated program %s: a method reached through an interface is not the one a direct call reaches\n%s" % (name, "\n".join(bad[:6])))
+        if len(chk.cov["samples"]) < 3:
+            sat = [l for l in tg.split("\n") if " + " in l][:2]
+            chk.sample({"program": name, "concrete_values": p["nvals"], "interfaces": p["nifaces"], "first_satisfied_lines_go": sat, "same_under_llgo": tg == tl})
+
+chk.cov["b_build_and_run_wall_s"] = {k: [min(v), max(v)] for k, v in walls.items()}
+chk.cov["evaluations"] += stats["b_evaluations"]
+for k, v in stats.items():
+    chk.cov[k if k.startswith("b_") else "b_" + k] = v
+chk.cov["rule"] += (" | leg b: %d generated programs (identity matrix: x.(T), type switch, ==, map[any]; reflect.Type == incl. Elem(); "
+                    "(concrete, interface) table with ids through the interface vs direct calls) + fixed probe program; llgo -O0 vs go1.24.0, line by line"
+                    % (stats["programs"] - 1))
+if stats["model_disagreements"]:
+    core.broken("C07: the generator's own method-set model disagrees with go in %d (type, interface) pairs" % stats["model_disagreements"])
+ngen = len(jobs)
+if stats["invalid_generated"] > max(1, ngen // 50) or (not THOROUGH and stats["invalid_generated"] > 0):
+    core.broken("C07: %d of %d generated programs are rejected by / misbehave under the reference toolchain" % (stats["invalid_generated"], ngen))
+if chk.inconclusive > ngen // 4:
+    core.broken("C07: %d of %d programs inconclusive" % (chk.inconclusive, ngen))
+chk.finish(floor_eval=30000, floor_distinct=200)
